@@ -143,14 +143,19 @@ prop("C14", WORLD,
      note="Bound: one healthy plugin per run; the full configuration cross product listed in the evidence. Transport security is the crypto/tls contract model (certificates as identities). " + ENGINE)
 
 # ------------------------------------------------------------------------------------------------ C12
+TLSC = "crypto/tls contract (trusted, not checked): a server presents Certificates[0]; with ClientAuth = RequireAndVerifyClientCert it accepts a client iff the client presents a certificate contained in ClientCAs (weaker ClientAuth values accept more, as documented); a client accepts a server iff InsecureSkipVerify or the server certificate is in RootCAs; a TLS end and a plaintext end never connect. Certificates are identities, pools are sets of identities."
 prop("C12", ["prims.go", "c12.go"],
-     [run("serve", "harnessC12serve", ["automtls", "plain"],
-          quick={"bound": "plugin side, net/rpc: PLUGIN_CLIENT_CERT set or unset; the tls.Config reaching tls.NewListener compared field by field with the reference"})],
-     ["crypto/tls enforcement is the trusted base: a tls endpoint configured with RequireAndVerifyClientCert and a one-certificate pool refuses plaintext, certificate-less and wrong-certificate peers", "generateCert, X509KeyPair, AppendCertsFromPEM opaque", GHOSTFS],
-     ["crypto/tls", "crypto/x509", "generateCert"],
-     "TLS enforcement itself (inside crypto/tls); host side and brokered connections in this run",
-     text="Bounded symbolic model checking of the TLS wiring in the real Serve: with a client certificate in the environment the configuration that reaches the listener is the reference (RequireAndVerifyClientCert, a pool holding exactly the host's certificate as ClientCAs and RootCAs, own certificate, TLS >= 1.2, no weakening field) and it wraps the plugin's listener; without it nothing is wrapped. What go-plugin contributes to the property is which tls.Config reaches which listener; enforcement is crypto/tls's.",
-     note="Thinnest claim of the set: wiring only; crypto/tls is trusted. Plugin side, net/rpc (host side and brokers: see DESIGN.md). " + ENGINE)
+     [run("serve-wiring", "harnessC12serve", ["automtls", "plain"],
+          quick={"bound": "plugin side, net/rpc: PLUGIN_CLIENT_CERT set or unset; the tls.Config reaching tls.NewListener compared field by field with the reference"}),
+      run("intruders", "harnessC12", ["legit-works", "brokered-listeners", "intruders-refused"], files=WORLD,
+          quick={"bound": "host x plugin composed under AutoMTLS, net/rpc and gRPC, both launch methods; listeners attacked: the plugin's main listener, a plugin-side and a host-side brokered gRPC listener; intruder credential classes: plaintext, TLS without certificate, TLS with a fresh self-signed certificate"}),
+      run("impostor", "harnessC12impostor", ["impostor-refused"], files=WORLD,
+          quick={"bound": "a scripted net/rpc plugin that announces one certificate on its handshake line and serves with another"})],
+     [TLSC, "generateCert, X509KeyPair, AppendCertsFromPEM, base64 and x509 parsing preserve certificate identity"] + WORLD_ASSUME,
+     WORLD_STUBS,
+     "everything inside crypto/tls (the contract above is the trusted base); gRPC+mux brokered listeners; an intruder holding the right CA name with another key is the same class as 'another certificate' in the identity model",
+     text="Bounded symbolic model checking of (a) the TLS wiring in the real Serve against a field-by-field reference configuration and (b) the composed host and plugin under AutoMTLS with an intruder process attacking every listener go-plugin opened (main, plugin-side brokered, host-side brokered) with each credential class, and an impostor plugin: with the crypto/tls contract as the trusted base, no intruder gets a request served and the host refuses the impostor. What go-plugin contributes - which tls.Config reaches which listener and dial - is decided on the real code; enforcement is crypto/tls's.",
+     note="Trusted base: the crypto/tls contract stated in the evidence (certificates as identities). Bound: one intruder attempt per listener and credential class. " + ENGINE)
 
 # ------------------------------------------------------------------------------------------------ C18
 GRPCSEAM = "gRPC seam at the generated-code interfaces: Register*Server records the real implementation; grpc.Server.Serve accepts from its listener until stopped; Stop/GracefulStop close the listeners being served (documented); a unary call runs the registered real method in the peer process"
